@@ -746,6 +746,7 @@ func (fc *FnCtx) evalCall(e *Expr, env *Env) Val {
 				fc.nfresh++
 				r := qsym(fmt.Sprintf("q.r%d", fc.nfresh))
 				isElem := and(eq(sx("kind", r), num(int64(k))), eq(sx(eo, r), sx("s-obj", a.T)))
+				isElem = or(isElem, fc.mineRef(r))
 				fs = append(fs, fmt.Sprintf("(forall ((%s Int)) (! (=> (not %s) (= (select %s %s) (select %s %s))) :pattern ((select %s %s))))", r, isElem, mem, r, mem0, r, mem, r))
 			}
 			return boolVal(and(fs...))
@@ -756,7 +757,7 @@ func (fc *FnCtx) evalCall(e *Expr, env *Env) Val {
 		mem0 := env.old.get(region, arr2Sort(es))
 		fc.nfresh++
 		o := qsym(fmt.Sprintf("q.o%d", fc.nfresh))
-		return boolVal(fmt.Sprintf("(forall ((%s Int)) (! (=> (not (= %s (s-obj %s))) (= (select %s %s) (select %s %s))) :pattern ((select %s %s))))", o, o, a.T, mem, o, mem0, o, mem, o))
+		return boolVal(fmt.Sprintf("(forall ((%s Int)) (! (=> (not %s) (= (select %s %s) (select %s %s))) :pattern ((select %s %s))))", o, or(eq(o, sx("s-obj", a.T)), fc.mineRef(o)), mem, o, mem0, o, mem, o))
 	case "mem_unchanged_except":
 		// all byte objects are as in the old state, except bytes [lo,hi) of slice b
 		a := args()
@@ -1203,4 +1204,14 @@ func findDirectIndex(e *Expr, name string, vars []QVar) *Expr {
 		}
 	}
 	return nil
+}
+
+// mineRef: the reference belongs to an object allocated by the function under verification.
+func (fc *FnCtx) mineRef(ref string) string {
+	var fs []string
+	for _, id := range fc.allocIDs {
+		fs = append(fs, eq(sx("allocid", ref), num(int64(id))))
+	}
+	sort.Strings(fs)
+	return or(fs...)
 }
